@@ -2,3 +2,4 @@ pub mod pair;
 pub mod sem;
 pub mod syn;
 pub mod bc;
+pub mod scale;
